@@ -147,15 +147,39 @@ def gen_info():
         return json.load(f)
 
 
-def hygiene():
-    """ forbidden vernacular anywhere in the development (outside comments
-    it is a hard failure; Variable/Hypothesis are allowed inside Sections) """
+def closure(prop_files):
+    """ the .v files (relative to COQ) a set of Props files depends on,
+    following `From SK Require Import ...` / `Require Import SK....` """
+    seen, todo = set(), list(prop_files)
+    while todo:
+        f = todo.pop()
+        if f in seen or not os.path.exists(os.path.join(COQ, f)):
+            continue
+        seen.add(f)
+        with open(os.path.join(COQ, f), encoding='utf-8') as fh:
+            text = strip_comments(fh.read())
+        for m in re.finditer(r'From\s+SK\s+Require\s+(?:Import|Export)\s+'
+                             r'(.*?)\.(?:\s|$)', text, re.S):
+            for mod in m.group(1).split():
+                todo.append(mod.replace('.', '/') + '.v')
+        for m in re.finditer(r'\bSK\.([A-Za-z_][\w]*(?:\.[A-Za-z_]\w*)+)',
+                             text):
+            todo.append(m.group(1).replace('.', '/') + '.v')
+    return seen
+
+
+def hygiene(only=None):
+    """ forbidden vernacular in the development (outside comments it is a
+    hard failure; Variable/Hypothesis are allowed inside Sections).  With
+    `only` (a set of relative paths) the scan is restricted to those files """
     bad = []
     for root, _, files in os.walk(COQ):
         for fn in files:
             if not fn.endswith('.v'):
                 continue
             path = os.path.join(root, fn)
+            if only is not None and os.path.relpath(path, COQ) not in only:
+                continue
             with open(path, encoding='utf-8') as f:
                 text = f.read()
             text = strip_comments(text)
@@ -406,7 +430,15 @@ class Check:
             self.broken.append({'obligation': f"coq build ({where}"
                                 + (f", in {thm}" if thm else "") + ")",
                                 'why': msg})
-        bad = hygiene()
+        # every file this property's theorems depend on must be free of
+        # Admitted / admit / Axiom / Parameter / ... (a hard failure); the
+        # rest of the development is scanned too and reported in the
+        # evidence (tools/hygiene_all.sh is the global gate)
+        deps = closure(prop_files)
+        bad = hygiene(deps)
+        self.coverage['hygiene_files_scanned'] = len(deps)
+        elsewhere = [b for b in hygiene() if b not in bad]
+        self.coverage['hygiene_elsewhere_in_development'] = elsewhere[:10]
         if bad:
             self.broken.append({'obligation': 'hygiene (no Admitted/Axiom/'
                                 '...)', 'why': '; '.join(bad[:10])})
